@@ -62,6 +62,13 @@ class Check(HCheck):
             al.rule(Ax, "path2"),
             al.LB_EXTEND,
         ]
+        # prefixes on multi-block stems that share their first 74 bytes (resolution must
+        # compare full stems), nested two levels deep
+        l75, l76, l148 = (A + L.long_stem(n) for n in (75, 76, 148))
+        deep = l76 + L.long_stem(149, b"\xff")
+        self.long_probes = [l75, l76, l148, deep, l75 + b"p:k|", l76 + b"p:k|", A + L.long_stem(77), A + L.long_stem(74), l148 + L.long_stem(75)]
+        ops3 = [al.create(l75), al.create(l76), al.create(l148, deep), al.addprefix(l76 + b"p:k|", 0), al.rmprefix(l75), al.delete(0), al.page(deep + b"p:z|"), al.move(l148, 0), al.create(A)]
+        sp.append(Space(Cfg("never"), ops3, 5 if thorough else 4, name="edits/long-stems"))
         sp.append(Space(Cfg("domain", {A: "path1"}), ops2, 4 if thorough else 3, roots=[al.R0, al.R1], name="edits+auto/domain+path1"))
         return sp
 
@@ -77,7 +84,7 @@ class Check(HCheck):
         if got != sorted(m.prefix.items()):
             ctx.fail("prefix-map", "attached prefixes %s differ from the net effect of the edits %s" % (_sh(got), _sh(sorted(m.prefix.items()))))
             return
-        for l in PROBES:
+        for l in PROBES + getattr(self, "long_probes", []):
             e = m.resolve(l)
             for what, fn in (("webentity", t.retrieve_webentity), ("prefix", t.retrieve_prefix)):
                 try:
